@@ -81,6 +81,23 @@ def _w11(xs, ys):
     return [node(v, 2) for v in a], [("Pair", x, y, 1) for x, y in zip(xs, ys)] + [("Node", v, 2) for v in a]
 
 
+def _w12(xs, ys):
+    a = [node(x, 1) for x in xs]
+    b = [node(v, 2) for v in a]
+    out = [pair(u, v, 3) for u, v in zip(a, b)]
+    return out, [("Node", x, 1) for x in xs] + [("Node", v, 2) for v in a] + [("Pair", u, v, 3) for u, v in zip(a, b)]
+
+
+def _w13(xs, ys):
+    a = [node(x, 1) for x in xs]
+    c = [node(y, 2) for y in ys]
+    b = [[pair(u, w, 3) for w in c] for u in a]
+    out = [pair(b[i][j], a[i], 4) for i in range(len(a)) for j in range(len(c))]
+    jobs = [("Node", x, 1) for x in xs] + [("Node", y, 2) for y in ys] + [("Pair", u, w, 3) for u in a for w in c] + \
+        [("Pair", b[i][j], a[i], 4) for i in range(len(a)) for j in range(len(c))]
+    return out, jobs
+
+
 SHAPES = {
     "W1": (lambda xs, ys: D.W1(xs=xs), _w1), "W2": (lambda xs, ys: D.W2(xs=xs, ys=ys), _w2),
     "W3": (lambda xs, ys: D.W3(xs=xs), _w3), "W4": (lambda xs, ys: D.W4(xs=xs), _w4),
@@ -88,6 +105,7 @@ SHAPES = {
     "W7": (lambda xs, ys: D.W7(xs=xs), _w7), "W8": (lambda xs, ys: D.W8(n=len(xs)), _w8),
     "W9": (lambda xs, ys: D.W9(xs=xs), _w9), "W10": (lambda xs, ys: D.W10(xs=xs, ys=ys), _w10),
     "W11": (lambda xs, ys: D.W11(xs=xs, ys=ys), _w11),
+    "W12": (lambda xs, ys: D.W12(xs=xs), _w12), "W13": (lambda xs, ys: D.W13(xs=xs, ys=ys), _w13),
 }
 
 
